@@ -281,6 +281,24 @@ fn gen_medium(seed: u64, tier: Tier) -> Scenario {
     if tier == Tier::Thorough {
         s.knobs.insert("thorough".into(), 1);
     }
+    // One seed in three ends with a payload-less update of a document that is not the newest one
+    // (the successor frame then owns bytes that lie before those of lower-numbered frames), so
+    // that doctor's compaction and the damaged-file readers meet out-of-order payload offsets.
+    let mut r = Rng::new(seed, "medium-tail");
+    if r.chance(1, 3) {
+        s.ops.push(Op::Open);
+        for name in ["a", "b"] {
+            let kind = *r.pickv(&[PK::Bin, PK::Text, PK::Compressible]);
+            let mut p = PutSpec { pay: Some(Pay::new(kind, r.range(40, 3000) as usize, r.next())), ts: Some(7), ..Default::default() };
+            p.uri = Some(format!("mv2://tail/{name}"));
+            s.ops.push(Op::Put(p));
+        }
+        s.ops.push(Op::Commit);
+        s.ops.push(Op::UpdateUri { uri: "mv2://tail/a".into(), spec: PutSpec { title: Some("retitled tail".into()), ..Default::default() } });
+        s.ops.push(Op::Commit);
+        s.ops.push(Op::Check);
+        s.ops.push(Op::Close);
+    }
     s
 }
 pub const RULE_MEDIUM: &str = "a seeded history (puts of all payload classes, updates, deletes, commits, vacuum, doctor) produces a committed, closed file; 40 (quick) or 300 (thorough) seeded medium faults per file are then applied at rest, addressed by structure (header fields, WAL, each payload, index region, TOC, footer): single-bit flips, zeroed or garbage-filled ranges and sectors, truncation, a lost earlier write (rebuilt from the syscall log), misdirected copies and splices; each faulted copy is opened read-only and writable, read frame by frame, verified and (C21/C22) given to doctor; a run is non-trivial iff the history acknowledged a mutation and >=1 faulted image was evaluated; distinct = (op-kind buckets, fault kinds, regions hit) classes";
